@@ -262,8 +262,9 @@ func (tp *TableParser) parseCell(cell tableCellXML) ParsedTableCell {
 	if props.VMerge.Val == "restart" {
 		// This cell starts a vertical merge
 		parsed.RowSpan = 1 // Will be calculated in processVerticalMerges
-	} else if props.VMerge.Val == "" && props.VMerge.XMLName.Local == "vMerge" {
-		// This cell continues a vertical merge (empty val means continue)
+	} else if (props.VMerge.Val == "" || props.VMerge.Val == "continue") && props.VMerge.XMLName.Local == "vMerge" {
+		// This cell continues a vertical merge (val is "continue", which
+		// is also what an absent val means)
 		parsed.IsMergedContinuation = true
 	}
 
